@@ -88,6 +88,28 @@ def Flagged (r : Range) (xs : List Rat) : List Part → Nat → Prop
     (0 < p.usr → ¬ insideAt r xs start → 0 < p.cut) ∧
     (0 < p.usr → ¬ insideAt r xs (start + p.usr - 1) → 0 < p.trim) ∧ Flagged r xs ps (start + p.raw)
 
+/-- the points a consumer reports for a part (`polyline::part::points`): its drawn points without the first
+    one when a cut is stored and without the last one when a trim is stored — all of them are visible -/
+def ReportedVisible (r : Range) (xs : List Rat) : List Part → Nat → Prop
+  | [], _ => True
+  | p :: ps, start =>
+    (∀ j, (if p.cut ≠ 0 then 1 else 0) ≤ j → j + (if p.trim ≠ 0 then 1 else 0) < p.usr → insideAt r xs (start + j))
+    ∧ ReportedVisible r xs ps (start + p.raw)
+
+/-- every stored fraction decodes (`dec`) to the crossing of the first / last drawn segment with the range
+    boundary up to one unit of the 16-bit encoding -/
+def CrossingsCoded (dec : Nat → Rat) (r : Range) (xs : List Rat) : List Part → Nat → Prop
+  | [], _ => True
+  | p :: ps, start =>
+    (∀ x0 x1, xs[start]? = some x0 → xs[start + 1]? = some x1 → 2 ≤ p.usr → ¬ insideAt r xs start →
+      dec p.cut - crossing x0 x1 (nearBound r x0) ≤ 1 / 65536 ∧
+      crossing x0 x1 (nearBound r x0) - dec p.cut ≤ 1 / 65536 ∧ 0 < p.cut) ∧
+    (∀ prev x, xs[start + p.usr - 2]? = some prev → xs[start + p.usr - 1]? = some x → 2 ≤ p.usr →
+      ¬ insideAt r xs (start + p.usr - 1) →
+      dec p.trim - crossing x prev (nearBound r x) ≤ 1 / 65536 ∧
+      crossing x prev (nearBound r x) - dec p.trim ≤ 1 / 65536 ∧ 0 < p.trim) ∧
+    CrossingsCoded dec r xs ps (start + p.raw)
+
 def flaggedB (r : Range) (a : Array Rat) : List Part → Nat → Bool
   | [], _ => true
   | p :: ps, start =>
